@@ -144,8 +144,9 @@ def main():
             for c in checks:
                 rd = os.path.join(alt, "replays", c)
                 cands = [os.path.join(rd, f) for f in (os.listdir(rd) if os.path.isdir(rd) else [])
-                         if f.endswith(".json") and not f.endswith("-crash.json")]
-                cands.sort(key=os.path.getsize)
+                         if f.endswith(".json")]
+                # shrunk failing cases first; the case that killed a process (not shrunk) only when there is nothing else
+                cands.sort(key=lambda f: (f.endswith("-crash.json"), os.path.getsize(f)))
                 for cand in cands[:3]:
                     dst = os.path.join(ROOT, "replays", c, "regress-seeded-%s.json" % name)
                     os.makedirs(os.path.dirname(dst), exist_ok=True)
